@@ -5,7 +5,8 @@
         2.. = the spec evaluated on the implementation's own output is false:
               2 bulk <> per-sample, 3 label outside the announced range, 4 second pass differs,
               5 wrapped dataset's labels changed, 6 encoding not a distribution / wrong argmax,
-              7 bulk of a re-encoding wrapper is not the integer label *)
+              7 bulk of a re-encoding wrapper is not the integer label,
+              8 a thresholded pseudo label was not decided by "softmax(row).max() > threshold" *)
 From Coq Require Import ZArith List Bool QArith.
 Import ListNotations.
 From KD Require Import C16.Model C16.Spec.
@@ -53,8 +54,20 @@ Definition draws_okb (w : wspec) (C : Z) (labels : list Z) : bool :=
   | _ => contractb w C labels
   end.
 
+(* thresholded pseudo labels: the decisions recorded on the per-sample path, on the bulk path and
+   the rule itself.  0 = all agree; 2 = the premise of the coherence theorem (same decisions on
+   both paths) is false; 8 = the per-sample path does not follow the rule *)
+Definition decisions_code (w : wspec) : nat :=
+  match w with
+  | WPseudo (PLThr _ ref dec_item dec_bulk) =>
+      if negb (bools_eqb dec_item dec_bulk) then 2%nat
+      else if negb (bools_eqb dec_item ref) then 8%nat else 0%nat
+  | _ => 0%nat
+  end.
+
 Definition check_label (w : wspec) (C : Z) (labels : list Z) (o : lobs) : nat :=
   let items := o_items o in
+  if negb (Nat.eqb (decisions_code w) 0) then decisions_code w else
   if negb (match o_bulk o with Some l => zlist_eqb l items | None => true end) then 2%nat else
   if negb (Nat.eqb (length items) (length labels)) then 2%nat else
   if contractb w C labels && negb (forallb (label_okb (allows_unlabeled w) (o_shape o)) items) then 3%nat else
